@@ -192,9 +192,17 @@ def conclude(w, pid, sums, violations, known_hits, drift, extra=None, samples=No
 
 
 def replay(w, pid, path):
+    path = os.path.abspath(path)
     r = w.validate(path, name="replay")
     known = vlib.load_known()
     violations, known_hits, drift = judge(w, pid, [r], known)
+    if pid == "C13":
+        known_via = [dict(k, property="C01") for k in known if k.get("property") == "C13" and k.get("via") == "C01"]
+        v2, k2, _ = judge(w, "C01", [r], known_via)
+        for v in v2:
+            v["what"] = "C13 via " + v["what"]
+        violations += v2
+        known_hits = sorted(set(known_hits + k2))
     for v in violations:
         v["replay"] = path
     for d in drift:
@@ -633,10 +641,13 @@ def ff_family(w, pid, corrupt, what):
     violations, known_hits, drift = judge(w, pid, tvs, known)
     if pid == "C13":
         # continuity is the agreement of the fast-forwarded node with the others
-        v2, k2, _ = judge(w, "C01", tvs, known)
+        # (known findings of C13 that show as a C01 disagreement)
+        known_via = [dict(k, property="C01") for k in known if k.get("property") == "C13" and k.get("via") == "C01"]
+        v2, k2, _ = judge(w, "C01", tvs, known_via)
         for v in v2:
             v["what"] = "C13 via " + v["what"]
         violations += v2
+        known_hits = sorted(set(known_hits + k2))
     st = None
     if not violations:
         if hasattr(corrupt, "node"):
